@@ -186,7 +186,7 @@ def _run(case, app, use_adapter):
             return bad
     return None
 
-case = [('adapter',), ('create', {'days': 1}), ('create', {'microseconds': 2}), ('access', 5, 'step'), ('hold', 3), ('access', 2, 'keep'), ('advance', 1800), ('access', 4, 'results'), ('advance', 59), ('access', 5, 'results'), ('advance', 59), ('advance', 61), ('metrics', False), ('access', 0, 'results'), ('access', 1, 'keep')]
+case = [('create', {'hours': 3}), ('create', {'microseconds': 3, 'minutes': 1}), ('create', {'milliseconds': 1}), ('create', {'weeks': 3, 'minutes': 1}), ('create', {'seconds': 90}), ('advance', 43200), ('access', 1, 'results'), ('advance', 86400), ('metrics', True), ('advance', 0.9), ('hold', 1), ('advance', 43200)]
 bad = run(case)
 print("timeline:", case)
 print("FAIL: " + bad if bad else "PASS")
